@@ -5,31 +5,38 @@ Import ListNotations.
 
 (* the library calls made by compile(save) and load in the current source *)
 Theorem C16_disciplines : save_mode = AtomicRename /\ load_mode = PrivateCopy /\ load_passes_num_bits = true
-  /\ load_sets_shape_and_classes = true.
+  /\ load_sets_shape_and_classes = true /\ recompile_mode = Refuses.
 Proof. exact current_disciplines. Qed.
 
-(* compile() on a handle returned by load() (no model to translate) is refused before anything is generated, installed
-   or written: such a handle can only be called, which is the operation language of the histories below *)
-Theorem C16_compile_requires_model : compile_requires_model = true.
-Proof. reflexivity. Qed.
-
-(* EVERY finite history of compile(save to p) / load(p) / call: the process model behaves exactly as the specification
-   "a call returns the model its handle was created from; load(p) yields the model most recently saved to p" *)
-Theorem C16_invariant : forall ops, run AtomicRename PrivateCopy empty ops = spec_run spec_empty ops.
+(* EVERY finite history of compile(save to p) / load(p) / call / compile() again on an existing instance: the process model
+   behaves exactly as the specification "a call returns the model its handle was created from; load(p) yields the model most
+   recently saved to p; compiling an instance again saves its own model; an instance without a model (from load) refuses" *)
+Theorem C16_invariant : forall ops, run AtomicRename PrivateCopy Refuses empty ops = spec_run spec_empty ops.
 Proof. exact histories_refine_spec. Qed.
 
-Theorem C16_no_crash : forall ops, ~ In RCrash (run AtomicRename PrivateCopy empty ops).
+Theorem C16_no_crash : forall ops, ~ In RCrash (run AtomicRename PrivateCopy Refuses empty ops).
 Proof. exact no_history_crashes. Qed.
 
 (* the earlier disciplines violate it: overwriting a mapped library in place crashes a live handle; loading by path
    returns a stale library after a re-save *)
 Theorem C16_inplace_refuted :
-  In RCrash (run InPlace ByPath empty [OCompile 1 (Some 0); OLoad 0; OCompile 2 (Some 0); OCall 1]).
+  In RCrash (run InPlace ByPath Refuses empty [OCompile 1 (Some 0); OLoad 0; OCompile 2 (Some 0); OCall 1]).
 Proof. exact inplace_bypath_crashes. Qed.
 Theorem C16_bypath_refuted :
-  run AtomicRename ByPath empty [OCompile 1 (Some 0); OLoad 0; OCompile 2 (Some 0); OLoad 0; OCall 3]
+  run AtomicRename ByPath Refuses empty [OCompile 1 (Some 0); OLoad 0; OCompile 2 (Some 0); OLoad 0; OCall 3]
   <> spec_run spec_empty [OCompile 1 (Some 0); OLoad 0; OCompile 2 (Some 0); OLoad 0; OCall 3].
 Proof. exact bypath_stale. Qed.
+
+(* compile() on a loaded handle, had it been accepted (code generated from no model, as before F43): the handle and every later
+   load of the path compute the empty network, where the specification keeps model 1 *)
+Theorem C16_rebuilds_empty_refuted :
+  run AtomicRename PrivateCopy RebuildsEmpty empty [OCompile 1 (Some 0); OLoad 0; ORecompile 1 (Some 0); OCall 1; OLoad 0; OCall 2]
+  = [RHandle 0; RHandle 1; RHandle 1; RValue EMPTY; RHandle 2; RValue EMPTY]
+  /\ spec_run spec_empty [OCompile 1 (Some 0); OLoad 0; ORecompile 1 (Some 0); OCall 1; OLoad 0; OCall 2]
+  = [RHandle 0; RHandle 1; RError; RValue 1; RHandle 2; RValue 1].
+Proof. exact rebuilds_empty_refuted. Qed.
+Theorem C16_compile_requires_model : compile_requires_model = true.
+Proof. reflexivity. Qed.
 
 (* re-entrancy: the emitted wrapper has exactly the modelled structure (all working storage is per-call heap memory, no static
    object), and logic_net's arrays are automatic (the parser rejects any static object in it) *)
@@ -42,4 +49,5 @@ Eval compute in "PA:C16_no_crash"%string. Print Assumptions C16_no_crash.
 Eval compute in "PA:C16_inplace_refuted"%string. Print Assumptions C16_inplace_refuted.
 Eval compute in "PA:C16_bypath_refuted"%string. Print Assumptions C16_bypath_refuted.
 Eval compute in "PA:C16_reentrant_structure"%string. Print Assumptions C16_reentrant_structure.
+Eval compute in "PA:C16_rebuilds_empty_refuted"%string. Print Assumptions C16_rebuilds_empty_refuted.
 Eval compute in "PA:C16_compile_requires_model"%string. Print Assumptions C16_compile_requires_model.
